@@ -921,3 +921,56 @@ func sortedKeys(m map[string]any) []string {
 }
 
 var _ = fmt.Sprint
+
+// MutateProgram derives a variant of a (corpus) program by token-level edits that still parse:
+// delete a window, duplicate a token, swap neighbours, replace a literal or an identifier.
+// All oracles that use it are differential or self-consistent, so any program that parses is fair.
+func MutateProgram(r *kernel.Rand, src string) string {
+	toks := tokenRe.FindAllString(src, -1)
+	if len(toks) == 0 {
+		return src
+	}
+	idents := []string{"length", "keys", "add", "sort", "reverse", "tostring", "tojson", "first", "last", "empty", "not", "type", "floor", "values", "flatten", "unique", "min", "max", "to_entries", "paths", "..", ".", "recurse", "any", "all", "isempty", "error", "ascii_downcase", "explode", "tostream", "input_line_number", "halt_error"}
+	lits := []string{"0", "1", "2", "-1", "10", "1.5", "null", "true", "false", `"a"`, `""`, "[]", "{}", "[1,2]", `{"a":1}`, ".a", ".[0]", ".[]?", "100000000000000000000"}
+	for try := 0; try < 12; try++ {
+		ts := append([]string{}, toks...)
+		edits := r.Range(1, 3)
+		for e := 0; e < edits && len(ts) > 0; e++ {
+			i := r.Intn(len(ts))
+			switch r.Intn(7) {
+			case 0: // delete a window
+				w := r.Range(1, min(4, len(ts)-i))
+				ts = append(ts[:i], ts[i+w:]...)
+			case 1: // duplicate a token
+				ts = append(ts[:i+1], ts[i:]...)
+			case 2: // swap neighbours
+				if i+1 < len(ts) {
+					ts[i], ts[i+1] = ts[i+1], ts[i]
+				}
+			case 3, 4: // replace a literal or an identifier
+				t := ts[i]
+				switch {
+				case len(t) > 0 && (t[0] == '"' || t[0] >= '0' && t[0] <= '9'):
+					ts[i] = kernel.Pick(r, lits)
+				case len(t) > 0 && (t[0] >= 'a' && t[0] <= 'z'):
+					ts[i] = kernel.Pick(r, idents)
+				default:
+					ts[i] = kernel.Pick(r, []string{"|", ",", "//", "+", "-", "==", "and"})
+				}
+			case 5: // wrap the whole program
+				w := kernel.Pick(r, []string{"[%s]", "(%s)?", "try (%s) catch .", "first(%s)", "[limit(3; %s)]", "{a: (%s)}", "(%s) as $m | $m", "def m: %s; m", "def m(f): f; m(%s)", "path(%s)?", "[.[]? | (%s)]", "reduce (%s) as $m (0; . + 1)", "label $m | (%s)", "(%s) | tojson", "(%s), ."})
+				ts = []string{fmt.Sprintf(w, strings.Join(ts, ""))}
+			default: // insert a pipe stage
+				ts = append(ts, " | ", kernel.Pick(r, idents))
+			}
+		}
+		out := strings.TrimSpace(strings.Join(ts, ""))
+		if out == "" || out == src {
+			continue
+		}
+		if _, err := gojq.Parse(out); err == nil {
+			return out
+		}
+	}
+	return src
+}
